@@ -19,6 +19,10 @@ type Outcome struct {
 type Limits struct {
 	MaxLeaves int // executions
 	MaxDraws  int // draws per execution; deeper paths count as unresolved mass
+	// Hostile: the source behaves like any io.Reader and like a source that fails now and then. Every third
+	// leaf is delivered in chunks of 1-3 bytes, and before every fifth leaf an auxiliary execution with the
+	// same script is aborted by a failing read (the caller recovers the panic). Neither may change any leaf.
+	Hostile bool
 }
 
 // Result of an exploration.
@@ -27,6 +31,7 @@ type Result struct {
 	Payload    map[string]interface{}
 	Leaves     int           // completed executions
 	Cuts       int           // executions cut by MaxDraws
+	AuxRuns    int           // auxiliary fault-aborted executions interleaved (Hostile)
 	Unresolved *big.Rat      // probability mass of paths not run to completion
 	Complete   bool          // Unresolved == 0
 	MaxDepth   int           // longest path (draws)
@@ -43,6 +48,8 @@ func Run(lim Limits, run func(t *tape.Tape) Outcome) *Result {
 	resolved := new(big.Rat)
 	one := big.NewRat(1, 1)
 	script := []uint32{}
+	lastReads := 0
+	var lastScript []uint32
 	for {
 		if lim.MaxLeaves > 0 && res.Leaves+res.Cuts >= lim.MaxLeaves {
 			// everything not yet visited is unresolved
@@ -51,8 +58,33 @@ func Run(lim Limits, run func(t *tape.Tape) Outcome) *Result {
 			res.Unresolved.Add(res.Unresolved, rest)
 			break
 		}
+		n := res.Leaves + res.Cuts
+		if lim.Hostile && n%3 == 1 && lastReads > 0 {
+			// the fault position cycles through the reads of a generation, late reads (most of the call's
+			// work done, most of its scratch state dirty) every other time
+			at := 1 + (n/3)%lastReads
+			if (n/3)%2 == 0 {
+				at = lastReads - (n/6)%3
+				if at < 1 {
+					at = 1
+				}
+			}
+			// the aborted call replays the previous leaf's choices, so that it gets as far as that leaf did
+			aux := &tape.Tape{Script: lastScript, AutoExtend: true, MaxDraws: lim.MaxDraws, Aux: true,
+				FaultAt: at, FaultBytes: (n / 3) % 4, FaultStick: n%2 == 0}
+			run(aux)
+			res.AuxRuns++
+		}
 		t := &tape.Tape{Script: script, AutoExtend: true, MaxDraws: lim.MaxDraws}
+		if lim.Hostile && n%3 == 2 {
+			t.Chunk = [][]int{{1}, {3, 1}, {2, 2, 1, 3}}[(n/3)%3]
+		}
 		out := run(t)
+		lastReads = t.Reads
+		lastScript = lastScript[:0]
+		for _, st := range t.Path {
+			lastScript = append(lastScript, st.I)
+		}
 		res.Draws += int64(len(t.Path))
 		if len(t.Path) > res.MaxDepth {
 			res.MaxDepth = len(t.Path)
